@@ -15,7 +15,8 @@ func probe() {
 		probeAuthn()
 		return
 	}
-	pods := []podSpec{{"zt", "istio-system", "u1", "ztunnel", "n1"}, {"p1", "a", "u2", "b", "n1"}, {"p2", "c", "u3", "d", "n2"}}
+	pods := []podSpec{{name: "zt", ns: "istio-system", uid: "u1", sa: "ztunnel", node: "n1"}, {name: "p1", ns: "a", uid: "u2", sa: "b", node: "n1"},
+		{name: "p2", ns: "c", uid: "u3", sa: "d", node: "n2"}}
 	na := []string{"na", wire.EncList([]string{"istio-system/ztunnel"}), "1", "c1", encPods(pods)}
 	node := authOutcome{kind: "ok", ids: []string{"spiffe://cluster.local/ns/istio-system/sa/ztunnel"}, kube: kinfo("zt", "istio-system", "u1", "ztunnel")}
 	base := func() reqSpec {
@@ -70,6 +71,76 @@ func probe() {
 		}
 		emit(r.line()...)
 	}
+	// 1b. pods the {service account, node} index must not contain: unscheduled pods (NodeName guard:
+	// an unscheduled trusted caller asks for an unscheduled pod's identity), pods without service
+	// account, and Failed pods (filtered by the informer's field selector)
+	header("unindexed-pods")
+	emit("ca", "plug", "86400", "86400", "1", "3600", "86400")
+	pods2 := []podSpec{{name: "zt", ns: "istio-system", uid: "u1", sa: "ztunnel", node: ""}, {name: "p1", ns: "a", uid: "u2", sa: "b", node: ""},
+		{name: "zt2", ns: "istio-system", uid: "u3", sa: "ztunnel", node: "n2"}, {name: "p2", ns: "c", uid: "u4", sa: "d", node: "n2", failed: true},
+		{name: "p3", ns: "c", uid: "u5", sa: "", node: "n2"}, {name: "p4", ns: "a", uid: "u6", sa: "ok", node: "n2"}}
+	emit("na", wire.EncList([]string{"istio-system/ztunnel"}), "1", "c1", encPods(pods2))
+	for i, imp := range []string{"spiffe://cluster.local/ns/a/sa/b", "spiffe://cluster.local/ns/c/sa/d", "spiffe://cluster.local/ns/c/sa/", "spiffe://cluster.local/ns/a/sa/ok"} {
+		r := base()
+		if i > 0 {
+			r.outs[0].kube = kinfo("zt2", "istio-system", "u3", "ztunnel")
+		}
+		r.imp = "s:" + wire.Enc(imp)
+		emit(r.line()...)
+	}
+	// 1c. known finding: the gate does not look at the trust domain of the impersonated identity
+	header("foreign-trust-domain")
+	emit("ca", "plug", "86400", "86400", "1", "3600", "86400")
+	emit(na...)
+	{
+		r := base()
+		r.imp = "s:" + wire.Enc("spiffe://other.td/ns/a/sa/b")
+		emit(r.line()...)
+	}
+	// 1d. REAL authenticators inside Server.Authenticators, end to end through CreateCertificate
+	header("real-authenticators")
+	emit("ca", "plug", "86400", "86400", "1", "3600", "86400")
+	emit(na...)
+	good := reviewSpec{authenticated: true, groups: []string{"system:serviceaccounts", "system:authenticated"},
+		username: "system:serviceaccount:istio-system:ztunnel", podName: "=zt", podUID: "=u1"}
+	reqa := func(spec []string, imp, cluster string) {
+		a := reqaSpec{spec: spec, req: reqSpec{csr: csrSpec{form: "ok", key: "ec256-a", cn: "evil.example.com", org: "Evil Corp", sans: []string{"evil.example.com"}, ca: true},
+			ttl: 600, imp: "-", signer: "-", cluster: cluster}}
+		if imp != "" {
+			a.req.imp = "s:" + wire.Enc(imp)
+		}
+		emit(a.line()...)
+	}
+	kube := func(rev reviewSpec, form string) []string {
+		return kubeSpecTokens("cluster.local", "c1", nil, "nil", "c1", form, "node-proxy-token", []string{"istio-ca"}, rev)
+	}
+	reqa(kube(good, "bearer"), "", "c1")                                 // the proxy's own identity
+	reqa(kube(good, "bearer"), "spiffe://cluster.local/ns/a/sa/b", "c1") // ambient flow: workload on its node
+	reqa(kube(good, "bearer"), "spiffe://cluster.local/ns/c/sa/d", "c1") // workload of another node
+	reqa(kube(good, "basic"), "", "c1")                                  // no bearer token
+	reqa(kube(good, "bearer"), "", "unknown")                            // cluster istiod does not know
+	bad := good
+	bad.authenticated = false
+	reqa(kube(bad, "bearer"), "", "c1")
+	stale := good
+	stale.podUID = "=old-uid"
+	reqa(kube(stale, "bearer"), "spiffe://cluster.local/ns/a/sa/b", "c1")
+	oidcSpec := func(sub, aud string) []string {
+		return []string{"oidc", "grpc", "cluster.local", "istio-ca", "bearer", "ok", wire.Enc(sub), "list", aud}
+	}
+	reqa(oidcSpec("system:serviceaccount:ns1:sa1", "istio-ca"), "", "-")
+	reqa(oidcSpec("system:serviceaccount:x", "istio-ca"), "", "-") // F5: an error since the fix, not a crash
+	reqa(oidcSpec("system:serviceaccount:ns1:sa1", "other"), "", "-")
+	reqa(oidcSpec("system:serviceaccount:a,evil.example.com:b", "istio-ca"), "", "-") // comma identity from a signed sub: refused
+	hx := `URI=spiffe://cluster.local/ns/b/sa/c;DNS=foo.example.com;Subject="CN=bar,O=x"`
+	for _, peer := range []string{"10.1.2.3:555", "11.1.2.3:555", "127.0.0.1:80"} {
+		reqa([]string{"xfcc", "grpc", wire.Enc("10.0.0.0/8"), wire.Enc(peer), wire.EncList([]string{hx}), parsedXFCC(hx)}, "", "-")
+	}
+	leaf := wire.Enc("san:" + wire.EncList([]string{"U:spiffe://cluster.local/ns/a/sa/b", "D:foo.example.com"}))
+	other := wire.Enc("san:" + wire.EncList([]string{"U:spiffe://cluster.local/ns/kube-system/sa/admin"}))
+	reqa([]string{"cert", "grpc", "tls", wire.EncList([]string{leaf + "|" + other, other})}, "", "-")
+	reqa([]string{"cert", "grpc", "tls", wire.EncList([]string{wire.Enc("nosan") + "|" + other})}, "", "-")
+	reqa([]string{"cert", "grpc", "other", wire.EncList([]string{leaf})}, "", "-")
 	// 2. authenticated identity containing a comma
 	header("comma-identity")
 	emit("ca", "self", fmt.Sprint(farLife), "-", "1", "3600", "86400")
@@ -104,6 +175,20 @@ func probe() {
 		r.ttl = ttl
 		emit(r.line()...)
 	}
+	// 4b. default TTL capped by the first chain certificate (minTTL) although the signer lives longer;
+	// bundle without a root certificate
+	header("capchain")
+	emit("ca", "capchain", "2592000", "7200,2592000", "1", "86400", "86400")
+	emit("na", "-")
+	for _, ttl := range []int64{0, -1, 600, 3600, 86400} {
+		r := base()
+		r.ttl = ttl
+		emit(r.line()...)
+	}
+	header("noroot")
+	emit("ca", "noroot", "86400", "86400", "0", "3600", "86400")
+	emit("na", "-")
+	emit(base().line()...)
 	// 5. no signer / expired signer / expired chain
 	for _, k := range []string{"nosigner", "expired", "expiredchain"} {
 		header(k)
@@ -149,48 +234,67 @@ func probeAuthn() {
 	e := wire.Enc
 	// finding F5: verified OIDC token whose sub has fewer than four fields (fixed by 90fe2f5)
 	emit("case", "0", "authn", "oidc-short-sub")
+	oidc := func(tr, td, expected, form, kind, sub, audKind, aud string) {
+		emit("authn", "oidc", tr, td, expected, form, kind, sub, audKind, aud)
+	}
 	for _, sub := range []string{"system:serviceaccount:x", "system:serviceaccount", "system:serviceaccount:", "system:serviceaccountx",
 		"system:serviceaccount:ns1:sa1", "system:serviceaccount:ns1:sa1:extra", "system:serviceaccountfoo:a:b", "bar:foo", ""} {
-		emit("authn", "oidc", "cluster.local", "istio-ca", "ok", e(sub), "list", "istio-ca")
+		oidc("grpc", "cluster.local", "istio-ca", "bearer", "ok", e(sub), "list", "istio-ca")
 	}
-	emit("authn", "oidc", "cluster.local", "istio-ca", "ok", e("system:serviceaccount:ns1:sa1"), "list", "x")
-	emit("authn", "oidc", "cluster.local", "istio-ca", "ok", e("system:serviceaccount:x"), "list", "x")
-	emit("authn", "oidc", "cluster.local", "istio-ca", "otherkey", e("system:serviceaccount:ns1:sa1"), "list", "istio-ca")
-	emit("authn", "oidc", "cluster.local", "istio-ca", "expired", e("system:serviceaccount:ns1:sa1"), "list", "istio-ca")
-	emit("authn", "oidc", "cluster.local", "istio-ca", "ok", e("system:serviceaccount:ns1:sa1"), "string", "istio-ca")
-	emit("authn", "oidc", "cluster.local", "istio-ca", "ok", "absent", "list", "istio-ca")
-	emit("authn", "oidc", "cluster.local", "istio-ca", "nohdr", "~", "list", "-")
-	emit("authn", "oidc", e("td@corp"), "-", "ok", e("system:serviceaccount:ns1:sa1"), "list", "istio-ca")
-	// XFCC: trusted / untrusted / loopback peers
+	oidc("http", "cluster.local", "istio-ca", "bearer", "ok", e("system:serviceaccount:x"), "list", "istio-ca")
+	oidc("http", "cluster.local", "istio-ca", "istio", "ok", e("system:serviceaccount:ns1:sa1"), "list", "istio-ca")
+	oidc("grpc", "cluster.local", "istio-ca", "istio", "ok", e("system:serviceaccount:ns1:sa1"), "list", "istio-ca")
+	oidc("grpc", "cluster.local", "istio-ca", "two", "ok", e("system:serviceaccount:ns1:sa1"), "list", "istio-ca")
+	oidc("http", "cluster.local", "istio-ca", "two", "ok", e("system:serviceaccount:ns1:sa1"), "list", "istio-ca")
+	oidc("grpc", "cluster.local", "istio-ca", "bearer", "ok", e("system:serviceaccount:ns1:sa1"), "list", "x")
+	oidc("grpc", "cluster.local", "istio-ca", "bearer", "ok", e("system:serviceaccount:x"), "list", "x")
+	oidc("grpc", "cluster.local", "istio-ca", "bearer", "otherkey", e("system:serviceaccount:ns1:sa1"), "list", "istio-ca")
+	oidc("grpc", "cluster.local", "istio-ca", "bearer", "expired", e("system:serviceaccount:ns1:sa1"), "list", "istio-ca")
+	oidc("grpc", "cluster.local", "istio-ca", "bearer", "ok", e("system:serviceaccount:ns1:sa1"), "string", "istio-ca")
+	oidc("grpc", "cluster.local", "istio-ca", "bearer", "ok", "absent", "list", "istio-ca")
+	oidc("grpc", "cluster.local", "istio-ca", "none", "ok", "~", "list", "-")
+	oidc("grpc", e("td@corp"), "-", "bearer", "ok", e("system:serviceaccount:ns1:sa1"), "list", "istio-ca")
+	// XFCC: trusted / untrusted / loopback peers, both transports
 	emit("case", "1", "authn", "xfcc")
 	h := `URI=spiffe://cluster.local/ns/b/sa/c;DNS=foo.example.com;Subject="CN=bar,O=x"`
-	for _, p := range []string{"10.1.2.3:555", "11.1.2.3:555", "127.0.0.1:80", "[::1]:80", "[::ffff:10.1.2.3]:1", "10.1.2.3", "[fe80::1%eth0]:1"} {
-		emit("authn", "xfcc", e("10.0.0.0/8"), e(p), wire.EncList([]string{h}), parsedXFCC(h))
+	for _, tr := range []string{"grpc", "http"} {
+		for _, p := range []string{"10.1.2.3:555", "11.1.2.3:555", "127.0.0.1:80", "[::1]:80", "[::ffff:10.1.2.3]:1", "10.1.2.3", "[fe80::1%eth0]:1"} {
+			emit("authn", "xfcc", tr, e("10.0.0.0/8"), e(p), wire.EncList([]string{h}), parsedXFCC(h))
+		}
+		emit("authn", "xfcc", tr, e("10.0.0.0/8"), "nopeer", wire.EncList([]string{h}), parsedXFCC(h))
+		emit("authn", "xfcc", tr, e("10.0.0.0/8"), e("10.1.2.3:555"), "-", "err")
+		emit("authn", "xfcc", tr, e("10.0.0.0/8"), e("10.1.2.3:555"), e("garbage"), parsedXFCC("garbage"))
 	}
-	emit("authn", "xfcc", e("10.0.0.0/8"), "nopeer", wire.EncList([]string{h}), parsedXFCC(h))
-	emit("authn", "xfcc", e("10.0.0.0/8"), e("10.1.2.3:555"), "-", "err")
-	emit("authn", "xfcc", e("10.0.0.0/8"), e("10.1.2.3:555"), e("garbage"), parsedXFCC("garbage"))
 	// client certificate
 	emit("case", "2", "authn", "cert")
-	leaf := e("san:" + wire.EncList([]string{"U:spiffe://cluster.local/ns/a/sa/b", "D:foo.example.com"}))
+	leaf := e("san:" + wire.EncList([]string{"U:spiffe://cluster.local/ns/a/sa/b", "D:foo.example.com", "I:c0a80101"}))
 	other := e("san:" + wire.EncList([]string{"U:spiffe://cluster.local/ns/kube-system/sa/admin"}))
-	emit("authn", "cert", "tls", wire.EncList([]string{leaf + "|" + other, other}))
-	emit("authn", "cert", "tls", wire.EncList([]string{e("nosan") + "|" + other}))
-	emit("authn", "cert", "tls", wire.EncList([]string{e("bad")}))
-	emit("authn", "cert", "tls", "-")
-	emit("authn", "cert", "tls", "~")
-	emit("authn", "cert", "other", wire.EncList([]string{leaf}))
-	emit("authn", "cert", "noauth", wire.EncList([]string{leaf}))
-	emit("authn", "cert", "nopeer", wire.EncList([]string{leaf}))
-	// kube JWT
+	for _, tr := range []string{"grpc", "http"} {
+		emit("authn", "cert", tr, "tls", wire.EncList([]string{leaf + "|" + other, other}))
+		emit("authn", "cert", tr, "tls", wire.EncList([]string{e("nosan") + "|" + other}))
+		emit("authn", "cert", tr, "tls", wire.EncList([]string{e("bad")}))
+		emit("authn", "cert", tr, "tls", "-")
+		emit("authn", "cert", tr, "tls", "~")
+		emit("authn", "cert", tr, "other", wire.EncList([]string{leaf}))
+		emit("authn", "cert", tr, "noauth", wire.EncList([]string{leaf}))
+		emit("authn", "cert", tr, "nopeer", wire.EncList([]string{leaf}))
+	}
+	// kube JWT: cluster selection, token and audience binding, review outcomes, both transports
 	emit("case", "3", "authn", "kube")
 	good := reviewSpec{authenticated: true, groups: []string{"system:serviceaccounts", "system:authenticated"},
 		username: "system:serviceaccount:istio-system:ztunnel", podName: "=zt", podUID: "=u1"}
-	emit("authn", "kube", "cluster.local", "Kubernetes", "alias=remote1", "remote1", "-", "bearer", good.tok())
-	emit("authn", "kube", "cluster.local", "Kubernetes", "alias=remote1", "remote1", "alias", "bearer", good.tok())
-	emit("authn", "kube", "cluster.local", "Kubernetes", "alias=remote1", "remote1", "unknown", "bearer", good.tok())
-	emit("authn", "kube", "cluster.local", "Kubernetes", "-", "nil", "remote1", "bearer", good.tok())
-	emit("authn", "kube", "cluster.local", "Kubernetes", "-", "nil", "-", "none", good.tok())
+	kube := func(tr, aliases, remotes, hdr, form, tok, aud string, r reviewSpec) {
+		emit("authn", "kube", tr, "cluster.local", "Kubernetes", aliases, remotes, hdr, form, e(tok), aud, r.tok())
+	}
+	kube("grpc", "alias=remote1", "remote1", "-", "bearer", "tok-1", "istio-ca", good)
+	kube("grpc", "alias=remote1", "remote1", "alias", "bearer", "tok-2", "istio-ca,other-aud", good)
+	kube("grpc", "alias=remote1", "remote1", "unknown", "bearer", "tok-1", "istio-ca", good)
+	kube("grpc", "-", "nil", "remote1", "bearer", "tok-1", "istio-ca", good)
+	kube("grpc", "-", "nil", "-", "none", "tok-1", "istio-ca", good)
+	kube("grpc", "-", "nil", "-", "istio", "tok-1", "istio-ca", good)
+	kube("http", "-", "nil", "-", "istio", "tok-1", "custom", good)
+	kube("http", "-", "remote1", "remote1,zzz", "bearer", "tok-1", "istio-ca", good)
+	kube("grpc", "-", "remote1", "remote1,zzz", "bearer", "tok-1", "istio-ca", good)
 	for i := 0; i < 6; i++ {
 		r := good
 		switch i {
@@ -207,6 +311,6 @@ func probeAuthn() {
 		case 5:
 			r.apiErr = true
 		}
-		emit("authn", "kube", "cluster.local", "Kubernetes", "-", "nil", "-", "bearer", r.tok())
+		kube("grpc", "-", "nil", "-", "bearer", "tok-1", "istio-ca", r)
 	}
 }
